@@ -59,7 +59,7 @@ def gen(rng, scenario, tier):
         cfg["detect_batch"] = rng.choice([2, 3, 3])
     d = adapters.n_features(rng, name)
     equal = rng.random() < 0.4
-    bs, drifts = workload.batches(rng, rng.randint(5, 14), d, 8, 40, equal=equal, dup=rng.choice([0.0, 0.0, 0.2]))
+    bs, drifts = workload.batches(rng, rng.randint(5, 14), d, 8, 40, equal=equal, dup=rng.choice([0.0, 0.0, 0.2]), regimes=("offset", "tiny"))
     ev = []
     for b in bs:
         perm = list(range(len(b)))
